@@ -298,6 +298,10 @@ prop("C07", [
     {"name": "c07_blockplans", "sources": ["c06_writes.cc"], "flavour": "asan",
      "args": {"quick": ["--mode=c06", "--D=1", "--busywait=1", "--last=120", "--timeout-ms=120000", "--deadline-s=170"],
               "thorough": ["--mode=c06", "--D=2", "--busywait=1", "--timeout-ms=600000", "--deadline-s=1200"]}},
+    # stalls measured in (virtual) time against the idle time-out, on a real endpoint
+    {"name": "c07_idle", "sources": ["c07_idle.cc"], "c_sources": ["common/netgate.c"], "flavour": "asan",
+     "args": {"quick": ["--max-stall=5", "--timeout-ms=120000", "--deadline-s=170"],
+              "thorough": ["--max-stall=8", "--timeout-ms=600000", "--deadline-s=900"]}},
 ],
     rule="one case = (pending writes 1..3 on connection A, A's socket answers would-block at write call i in 0..4, "
          "released after d in 1..4 event-loop steps, a request on connection B of the same worker arriving at step j "
